@@ -1,13 +1,7 @@
-/- core execution lemma of compile_correct: loop-free fragment (all constructs except loops, floats, `P% of`) -/
+/- core execution lemma of compile_correct: loop-free constructs (everything except loops, floats, `P% of`) -/
 import YaraModel.Lemmas.CondCompile
 namespace YaraModel.CondCompile
 open YaraModel YaraModel.C YaraModel.Cond YaraModel.CondVm YaraModel.Gen.VmOps
-
-theorem Runs.congr {env : Env} {code f f' : List Instr} {P : List Int → Prop} {vs : List Int}
-    (h : f = f') (hr : Runs env code f P vs) : Runs env code f' P vs := h ▸ hr
-
-theorem Runs.val {env : Env} {code f : List Instr} {P : List Int → Prop} {vs vs' : List Int}
-    (h : vs = vs') (hr : Runs env code f P vs) : Runs env code f P vs' := h ▸ hr
 
 def srefIdx (l : LEnv) : SRef → Nat
   | .id n => n
@@ -22,160 +16,155 @@ theorem matchesOf_idx (env : Env) (c : Ctx) (l : LEnv) (s : SRef) (h : SRefOk c 
     simp [Env.matchesOf, srefIdx, hn]
 
 theorem runs_pushStr (env : Env) (code : List Instr) (c : Ctx) (l : LEnv) (s : SRef) (h : SRefOk c l s) :
-    Runs env code [pushStr c s] (MemInv c l) [encStr (srefIdx l s)] := by
+    Runs env code [pushStr c s] c l [encStr (srefIdx l s)] := by
   cases s with
-  | id n => exact Runs.push1 _ _ (fun s _ => rfl)
+  | id n => exact Runs.push1 _ _ (fun _ _ _ _ _ => rfl)
   | cur =>
     obtain ⟨⟨n, hn⟩, _⟩ := h
     apply Runs.push1
-    intro s hP
-    obtain ⟨slot, hs, hg⟩ := hP.2.2 n hn
+    intro pc st mem its hP
+    obtain ⟨slot, hs, _, hg⟩ := hP.2.2 n hn
     simp [pushStr, hs, step, srefIdx, hn, hg]
 
-theorem Runs.val1 {env : Env} {code f : List Instr} {P : List Int → Prop} {r r' : Int}
-    (h : r = r') (hr : Runs env code f P [r]) : Runs env code f P [r'] := h ▸ hr
+/-! ### single instructions on explicit states -/
 
-theorem step_count (env : Env) (n : Nat) (s : St) :
-    step env .count { s with stack := [encStr n] ++ s.stack } =
-      some { s with pc := s.pc + 1, stack := ((env.strs.getD n []).length : Int) :: s.stack } := by
+theorem step_count (env : Env) (n : Nat) (pc : Nat) (st mem : List Int) (its : List Iter) :
+    step env .count ⟨pc, [encStr n] ++ st, mem, its⟩ =
+      some ⟨pc + 1, ((env.strs.getD n []).length : Int) :: st, mem, its⟩ := by
   simp [step, ms_enc]
 
-theorem step_found (env : Env) (n : Nat) (s : St) :
-    step env .found { s with stack := [encStr n] ++ s.stack } =
-      some { s with pc := s.pc + 1, stack := b2i (!(env.strs.getD n []).isEmpty) :: s.stack } := by
+theorem step_found (env : Env) (n : Nat) (pc : Nat) (st mem : List Int) (its : List Iter) :
+    step env .found ⟨pc, [encStr n] ++ st, mem, its⟩ =
+      some ⟨pc + 1, b2i (!(env.strs.getD n []).isEmpty) :: st, mem, its⟩ := by
   simp [step, ms_enc]
 
-theorem step_countIn (env : Env) (n : Nat) (hi lo : Int) (s : St) :
-    step env .countIn { s with stack := [encStr n, hi, lo] ++ s.stack } =
-      some { s with pc := s.pc + 1, stack := (if isU lo || isU hi then UNDEF
-        else (((env.strs.getD n []).countP (inRange lo hi) : Nat) : Int)) :: s.stack } := by
+theorem step_countIn (env : Env) (n : Nat) (hi lo : Int) (pc : Nat) (st mem : List Int) (its : List Iter) :
+    step env .countIn ⟨pc, [encStr n, hi, lo] ++ st, mem, its⟩ =
+      some ⟨pc + 1, (if isU lo || isU hi then UNDEF
+        else (((env.strs.getD n []).countP (inRange lo hi) : Nat) : Int)) :: st, mem, its⟩ := by
   simp [step, ms_enc]
 
-theorem step_foundIn (env : Env) (n : Nat) (hi lo : Int) (s : St) :
-    step env .foundIn { s with stack := [encStr n, hi, lo] ++ s.stack } =
-      some { s with pc := s.pc + 1, stack := (if isU lo || isU hi then UNDEF
-        else b2i ((env.strs.getD n []).any (inRange lo hi))) :: s.stack } := by
+theorem step_foundIn (env : Env) (n : Nat) (hi lo : Int) (pc : Nat) (st mem : List Int) (its : List Iter) :
+    step env .foundIn ⟨pc, [encStr n, hi, lo] ++ st, mem, its⟩ =
+      some ⟨pc + 1, (if isU lo || isU hi then UNDEF
+        else b2i ((env.strs.getD n []).any (inRange lo hi))) :: st, mem, its⟩ := by
   simp [step, ms_enc]
 
-theorem step_foundAt (env : Env) (n : Nat) (x : Int) (s : St) :
-    step env .foundAt { s with stack := [encStr n, x] ++ s.stack } =
-      some { s with pc := s.pc + 1, stack := (if isU x then UNDEF
-        else b2i ((env.strs.getD n []).any fun m => m.1 == x)) :: s.stack } := by
+theorem step_foundAt (env : Env) (n : Nat) (x : Int) (pc : Nat) (st mem : List Int) (its : List Iter) :
+    step env .foundAt ⟨pc, [encStr n, x] ++ st, mem, its⟩ =
+      some ⟨pc + 1, (if isU x then UNDEF
+        else b2i ((env.strs.getD n []).any fun m => m.1 == x)) :: st, mem, its⟩ := by
   simp [step, ms_enc]
 
-theorem step_offset (env : Env) (n : Nat) (x : Int) (s : St) :
-    step env .offset { s with stack := [encStr n, x] ++ s.stack } =
-      some { s with pc := s.pc + 1, stack := (if isU x then UNDEF else nthOff (env.strs.getD n []) x) :: s.stack } := by
+theorem step_offset (env : Env) (n : Nat) (x : Int) (pc : Nat) (st mem : List Int) (its : List Iter) :
+    step env .offset ⟨pc, [encStr n, x] ++ st, mem, its⟩ =
+      some ⟨pc + 1, (if isU x then UNDEF else nthOff (env.strs.getD n []) x) :: st, mem, its⟩ := by
   simp [step, ms_enc]
 
-theorem step_length (env : Env) (n : Nat) (x : Int) (s : St) :
-    step env .length { s with stack := [encStr n, x] ++ s.stack } =
-      some { s with pc := s.pc + 1, stack := (if isU x then UNDEF else nthLen (env.strs.getD n []) x) :: s.stack } := by
+theorem step_length (env : Env) (n : Nat) (x : Int) (pc : Nat) (st mem : List Int) (its : List Iter) :
+    step env .length ⟨pc, [encStr n, x] ++ st, mem, its⟩ =
+      some ⟨pc + 1, (if isU x then UNDEF else nthLen (env.strs.getD n []) x) :: st, mem, its⟩ := by
   simp [step, ms_enc]
 
-theorem runs_boolpos {env : Env} {code : List Instr} {P : List Int → Prop} (f : List Instr) (t : Ty) (w : Int)
-    (ih : Runs env code f P [w]) : Runs env code (f ++ strToBool t) P [boolWord env.blocks t w] := by
+theorem step_matches (env : Env) (re a : Int) (pc : Nat) (st mem : List Int) (its : List Iter) :
+    step env .matches ⟨pc, [re, a] ++ st, mem, its⟩ =
+      some ⟨pc + 1, (if isU re || isU a then UNDEF else matchWord re a) :: st, mem, its⟩ := by
+  simp [step]
+
+/-! ### boolean position, short-circuit `and` / `or` -/
+
+theorem runs_boolpos {env : Env} {code : List Instr} {c : Ctx} {l : LEnv} (f : List Instr) (t : Ty) (w : Int)
+    (ih : Runs env code f c l [w]) : Runs env code (f ++ strToBool t) c l [boolWord env.blocks t w] := by
   by_cases ht : t = .str
   · subst ht
     simp only [strToBool, boolWord, beq_self_eq_true, if_true]
-    exact Runs.op (.un .OP_STR_TO_BOOL) _ _ ih (fun s => rfl)
+    exact Runs.op (.un .OP_STR_TO_BOOL) _ _ ih (fun _ _ _ _ => rfl)
   · have : (t == Ty.str) = false := by simp [ht]
     simp only [strToBool, boolWord, this, if_false, List.append_nil, Bool.false_eq_true]
     exact ih
 
-theorem runs_and {env : Env} {code A B : List Instr} {P : List Int → Prop} {wa wb : Int}
-    (ha : Runs env code A P [wa]) (hb : Runs env code B P [wb]) :
-    Runs env code (A ++ [.jfalse ((B.length : Int) + 2)] ++ B ++ [.bin .OP_AND]) P
+theorem len4 (A B : List Instr) (j o : Instr) : (A ++ [j] ++ B ++ [o]).length = A.length + 1 + B.length + 1 := by
+  simp only [List.length_append, List.length_cons, List.length_nil]
+
+theorem runs_and {env : Env} {code A B : List Instr} {c : Ctx} {l : LEnv} {wa wb : Int}
+    (ha : Runs env code A c l [wa]) (hb : Runs env code B c l [wb]) :
+    Runs env code (A ++ [.jfalse ((B.length : Int) + 2)] ++ B ++ [.bin .OP_AND]) c l
       [b2i ((!isU wa && wa != 0) && (!isU wb && wb != 0))] := by
-  intro pc s hc hpc hP
-  have s1 := ha pc s hc.left.left.left hpc hP
+  intro pc st mem its hc hP hlen
+  obtain ⟨m1, i1, s1, a1⟩ := ha pc st mem its hc.left.left.left hP hlen
   have hj : code[pc + A.length]? = some (.jfalse ((B.length : Int) + 2)) := hc.left.left.right.head
+  rw [len4]
   by_cases hk : (!isU wa && wa == 0) = true
   · -- jump taken: the left operand (0) is the result
     have hw : wa = 0 := by simp at hk; exact hk.2
     have hu : isU (0 : Int) = false := by decide
-    have s2 : Steps env code { s with pc := pc + A.length, stack := [wa] ++ s.stack }
-        { s with pc := pc + (A ++ [Instr.jfalse ((B.length : Int) + 2)] ++ B ++ [Instr.bin .OP_AND]).length,
-                 stack := [b2i ((!isU wa && wa != 0) && (!isU wb && wb != 0))] ++ s.stack } := by
-      apply Steps.one (i := .jfalse ((B.length : Int) + 2)) (by simpa using hj)
-      subst hw
-      simp only [step, List.singleton_append, hu, jump]
-      simp only [Bool.not_false, bne_self_eq_false, Bool.and_false, Bool.false_and, b2i, beq_self_eq_true,
-        Bool.and_self, if_true, Bool.false_eq_true, if_false]
-      congr 2
-      simp only [List.length_append, List.length_cons, List.length_nil]
-      omega
-    exact Steps.trans s1 s2
+    refine ⟨m1, i1, Steps.trans s1 (Steps.one (by simpa using hj) ?_), a1⟩
+    subst hw
+    simp only [step, List.singleton_append, hu, jump]
+    simp only [Bool.not_false, bne_self_eq_false, Bool.and_false, Bool.false_and, b2i, beq_self_eq_true,
+      Bool.and_self, if_true, Bool.false_eq_true, if_false]
+    congr 2
+    omega
   · have hk' : (!isU wa && wa == 0) = false := by simpa using hk
-    have s2 : Steps env code { s with pc := pc + A.length, stack := [wa] ++ s.stack }
-        { s with pc := pc + A.length + 1, stack := [wa] ++ s.stack } := by
-      apply Steps.one (i := .jfalse ((B.length : Int) + 2)) (by simpa using hj)
+    have s2 : Steps env code ⟨pc + A.length, [wa] ++ st, m1, i1⟩ ⟨pc + A.length + 1, [wa] ++ st, m1, i1⟩ := by
+      apply Steps.one (by simpa using hj)
       simp only [step, List.singleton_append, hk', Bool.false_eq_true, if_false]
     have hcb : CodeAt code (pc + A.length + 1) B := by
       have := hc.left.right
       simpa [Nat.add_assoc] using this
-    have s3 := hb (pc + A.length + 1) { s with pc := pc + A.length + 1, stack := [wa] ++ s.stack } hcb rfl hP
+    obtain ⟨m3, i3, s3, a3⟩ := hb (pc + A.length + 1) ([wa] ++ st) m1 i1 hcb (hP.stable a1) (a1.2.trans hlen)
     have ho : code[pc + A.length + 1 + B.length]? = some (.bin .OP_AND) := by
       have := hc.right.head
       have e : pc + (A ++ [Instr.jfalse ((B.length : Int) + 2)] ++ B).length = pc + A.length + 1 + B.length := by
         simp only [List.length_append, List.length_cons, List.length_nil]; omega
       rwa [e] at this
-    have s4 : Steps env code { s with pc := pc + A.length + 1 + B.length, stack := [wb] ++ ([wa] ++ s.stack) }
-        { s with pc := pc + (A ++ [Instr.jfalse ((B.length : Int) + 2)] ++ B ++ [Instr.bin .OP_AND]).length,
-                 stack := [b2i ((!isU wa && wa != 0) && (!isU wb && wb != 0))] ++ s.stack } := by
-      apply Steps.one (i := .bin .OP_AND) (by simpa using ho)
+    have s4 : Steps env code ⟨pc + A.length + 1 + B.length, [wb] ++ ([wa] ++ st), m3, i3⟩
+        ⟨pc + (A.length + 1 + B.length + 1), [b2i ((!isU wa && wa != 0) && (!isU wb && wb != 0))] ++ st, m3, i3⟩ := by
+      apply Steps.one (by simpa using ho)
       simp only [step, List.singleton_append, vm_and]
       congr 2
-      simp only [List.length_append, List.length_cons, List.length_nil]
       omega
-    exact Steps.trans s1 (Steps.trans s2 (Steps.trans s3 s4))
+    exact ⟨m3, i3, Steps.trans s1 (Steps.trans s2 (Steps.trans s3 s4)), a3.trans a1⟩
 
-theorem runs_or {env : Env} {code A B : List Instr} {P : List Int → Prop} {wa wb : Int}
-    (ha : Runs env code A P [wa]) (hb : Runs env code B P [wb])
+theorem runs_or {env : Env} {code A B : List Instr} {c : Ctx} {l : LEnv} {wa wb : Int}
+    (ha : Runs env code A c l [wa]) (hb : Runs env code B c l [wb])
     (h1 : (!isU wa && wa != 0) = true → wa = 1) :
-    Runs env code (A ++ [.jtrue ((B.length : Int) + 2)] ++ B ++ [.bin .OP_OR]) P
+    Runs env code (A ++ [.jtrue ((B.length : Int) + 2)] ++ B ++ [.bin .OP_OR]) c l
       [b2i ((!isU wa && wa != 0) || (!isU wb && wb != 0))] := by
-  intro pc s hc hpc hP
-  have s1 := ha pc s hc.left.left.left hpc hP
+  intro pc st mem its hc hP hlen
+  obtain ⟨m1, i1, s1, a1⟩ := ha pc st mem its hc.left.left.left hP hlen
   have hj : code[pc + A.length]? = some (.jtrue ((B.length : Int) + 2)) := hc.left.left.right.head
+  rw [len4]
   by_cases hk : (!isU wa && wa != 0) = true
   · have hw : wa = 1 := h1 hk
     have hu : isU (1 : Int) = false := by decide
-    have s2 : Steps env code { s with pc := pc + A.length, stack := [wa] ++ s.stack }
-        { s with pc := pc + (A ++ [Instr.jtrue ((B.length : Int) + 2)] ++ B ++ [Instr.bin .OP_OR]).length,
-                 stack := [b2i ((!isU wa && wa != 0) || (!isU wb && wb != 0))] ++ s.stack } := by
-      apply Steps.one (i := .jtrue ((B.length : Int) + 2)) (by simpa using hj)
-      subst hw
-      simp only [step, List.singleton_append, hu, jump]
-      simp only [Bool.not_false, b2i, Bool.true_and, Bool.true_or, if_true, bne_iff_ne, ne_eq, Int.reduceEq,
-        not_false_eq_true, decide_true]
-      congr 2
-      simp only [List.length_append, List.length_cons, List.length_nil]
-      omega
-    exact Steps.trans s1 s2
+    refine ⟨m1, i1, Steps.trans s1 (Steps.one (by simpa using hj) ?_), a1⟩
+    subst hw
+    simp only [step, List.singleton_append, hu, jump]
+    simp only [Bool.not_false, b2i, Bool.true_and, Bool.true_or, if_true, bne_iff_ne, ne_eq, Int.reduceEq,
+      not_false_eq_true, decide_true]
+    congr 2
+    omega
   · have hk' : (!isU wa && wa != 0) = false := by simpa using hk
-    have s2 : Steps env code { s with pc := pc + A.length, stack := [wa] ++ s.stack }
-        { s with pc := pc + A.length + 1, stack := [wa] ++ s.stack } := by
-      apply Steps.one (i := .jtrue ((B.length : Int) + 2)) (by simpa using hj)
+    have s2 : Steps env code ⟨pc + A.length, [wa] ++ st, m1, i1⟩ ⟨pc + A.length + 1, [wa] ++ st, m1, i1⟩ := by
+      apply Steps.one (by simpa using hj)
       simp only [step, List.singleton_append, hk', Bool.false_eq_true, if_false]
     have hcb : CodeAt code (pc + A.length + 1) B := by
       have := hc.left.right
       simpa [Nat.add_assoc] using this
-    have s3 := hb (pc + A.length + 1) { s with pc := pc + A.length + 1, stack := [wa] ++ s.stack } hcb rfl hP
+    obtain ⟨m3, i3, s3, a3⟩ := hb (pc + A.length + 1) ([wa] ++ st) m1 i1 hcb (hP.stable a1) (a1.2.trans hlen)
     have ho : code[pc + A.length + 1 + B.length]? = some (.bin .OP_OR) := by
       have := hc.right.head
       have e : pc + (A ++ [Instr.jtrue ((B.length : Int) + 2)] ++ B).length = pc + A.length + 1 + B.length := by
         simp only [List.length_append, List.length_cons, List.length_nil]; omega
       rwa [e] at this
-    have s4 : Steps env code { s with pc := pc + A.length + 1 + B.length, stack := [wb] ++ ([wa] ++ s.stack) }
-        { s with pc := pc + (A ++ [Instr.jtrue ((B.length : Int) + 2)] ++ B ++ [Instr.bin .OP_OR]).length,
-                 stack := [b2i ((!isU wa && wa != 0) || (!isU wb && wb != 0))] ++ s.stack } := by
-      apply Steps.one (i := .bin .OP_OR) (by simpa using ho)
+    have s4 : Steps env code ⟨pc + A.length + 1 + B.length, [wb] ++ ([wa] ++ st), m3, i3⟩
+        ⟨pc + (A.length + 1 + B.length + 1), [b2i ((!isU wa && wa != 0) || (!isU wb && wb != 0))] ++ st, m3, i3⟩ := by
+      apply Steps.one (by simpa using ho)
       simp only [step, List.singleton_append, vm_or]
       congr 2
-      simp only [List.length_append, List.length_cons, List.length_nil]
       omega
-    exact Steps.trans s1 (Steps.trans s2 (Steps.trans s3 s4))
+    exact ⟨m3, i3, Steps.trans s1 (Steps.trans s2 (Steps.trans s3 s4)), a3.trans a1⟩
 
 theorem boolWord_one (blocks : List (Nat × Bytes)) (t : Ty) (v : Val) (h : ValOk t v) (hb : BoolWord v)
     (hk : (!isU (boolWord blocks t (toVm v)) && boolWord blocks t (toVm v) != 0) = true) :
@@ -198,11 +187,6 @@ theorem boolWord_one (blocks : List (Nat × Bytes)) (t : Ty) (v : Val) (h : ValO
     · cases b <;> simp_all [boolWord, toVm, b2i]
   | flt => exact absurd h (by simp [ValOk])
 
-theorem step_matches (env : Env) (re a : Int) (s : St) :
-    step env .matches { s with stack := [re, a] ++ s.stack } =
-      some { s with pc := s.pc + 1, stack := (if isU re || isU a then UNDEF else matchWord re a) :: s.stack } := by
-  simp [step]
-
 theorem popToMarker_spec (ys acc rest : List Int) (h : ∀ y ∈ ys, isU y = false) :
     popToMarker (ys ++ UNDEF :: rest) acc = (ys.reverse ++ acc, rest) := by
   induction ys generalizing acc with
@@ -214,13 +198,13 @@ theorem popToMarker_spec (ys acc rest : List Int) (h : ∀ y ∈ ys, isU y = fal
     simp
 
 /-- a sequence of instructions each of which pushes a fixed word -/
-theorem runs_pushes {env : Env} {code : List Instr} {P : List Int → Prop} (ps : List (Instr × Int))
-    (h : ∀ p ∈ ps, ∀ s : St, step env p.1 s = some { s with pc := s.pc + 1, stack := p.2 :: s.stack }) :
-    Runs env code (ps.map (·.1)) P (ps.map (·.2)).reverse := by
+theorem runs_pushes {env : Env} {code : List Instr} {c : Ctx} {l : LEnv} (ps : List (Instr × Int))
+    (h : ∀ p ∈ ps, ∀ pc st mem its, step env p.1 ⟨pc, st, mem, its⟩ = some ⟨pc + 1, p.2 :: st, mem, its⟩) :
+    Runs env code (ps.map (·.1)) c l (ps.map (·.2)).reverse := by
   induction ps with
-  | nil => exact Runs.nil env code P
+  | nil => exact Runs.nil env code c l
   | cons p ps ih =>
-    have h1 : Runs env code [p.1] P [p.2] := Runs.push1 _ _ (fun s _ => h p (by simp) s)
+    have h1 : Runs env code [p.1] c l [p.2] := Runs.push1 _ _ (fun pc st mem its _ => h p (by simp) pc st mem its)
     have h2 := ih (fun q hq => h q (by simp [hq]))
     have := Runs.seq h1 h2
     simpa using this
@@ -266,59 +250,58 @@ theorem w_of (q : QKind) (vq : Val) (t n : Nat) (htn : t ≤ n)
       · have hb : (k == 0) = false := by simp [h0]
         simp [ofResult, isU, isUndef_of_ne hk, quantOf, quantHolds, toVm, hb, h0]
 
-theorem runs_quant {env : Env} {code : List Instr} {P : List Int → Prop} (q : QKind) (f : List Instr) (w : Int)
-    (ihq : q = .num → Runs env code f P [w]) : Runs env code (quantCode f q) P [quantWord q w] := by
+theorem runs_quant {env : Env} {code : List Instr} {c : Ctx} {l : LEnv} (q : QKind) (f : List Instr) (w : Int)
+    (ihq : q = .num → Runs env code f c l [w]) : Runs env code (quantCode f q) c l [quantWord q w] := by
   cases q with
-  | all => exact Runs.push1 _ _ (fun s _ => rfl)
-  | any => exact Runs.push1 _ _ (fun s _ => rfl)
-  | none => exact Runs.push1 _ _ (fun s _ => rfl)
+  | all => exact Runs.push1 _ _ (fun _ _ _ _ _ => rfl)
+  | any => exact Runs.push1 _ _ (fun _ _ _ _ _ => rfl)
+  | none => exact Runs.push1 _ _ (fun _ _ _ _ _ => rfl)
   | num => exact ihq rfl
 
-theorem step_of (env : Env) (rules : Bool) (items : List Int) (hi : ∀ y ∈ items, isU y = false) (qw : Int) (s : St) :
-    step env (.of_ rules) { s with stack := (items.reverse ++ ([UNDEF] ++ [qw])) ++ s.stack } =
-      some { s with pc := s.pc + 1,
-                    stack := ofResult qw (if rules then items.countP (fun v => v != 0)
-                                          else items.countP fun sv => !(matchesOfStr env sv).isEmpty) items.length :: s.stack } := by
-  have hst : (items.reverse ++ ([UNDEF] ++ [qw])) ++ s.stack = items.reverse ++ UNDEF :: (qw :: s.stack) := by simp
-  have hp := popToMarker_spec items.reverse [] (qw :: s.stack) (fun y hy => hi y (by simpa using hy))
+theorem step_of (env : Env) (rules : Bool) (items : List Int) (hi : ∀ y ∈ items, isU y = false) (qw : Int)
+    (pc : Nat) (st mem : List Int) (its : List Iter) :
+    step env (.of_ rules) ⟨pc, (items.reverse ++ ([UNDEF] ++ [qw])) ++ st, mem, its⟩ =
+      some ⟨pc + 1, ofResult qw (if rules then items.countP (fun v => v != 0)
+                                 else items.countP fun sv => !(matchesOfStr env sv).isEmpty) items.length :: st, mem, its⟩ := by
+  have hst : (items.reverse ++ ([UNDEF] ++ [qw])) ++ st = items.reverse ++ UNDEF :: (qw :: st) := by simp
+  have hp := popToMarker_spec items.reverse [] (qw :: st) (fun y hy => hi y (by simpa using hy))
   simp only [List.reverse_reverse, List.append_nil] at hp
   simp only [step, hst, hp]
 
-theorem step_ofFoundIn (env : Env) (items : List Int) (hi : ∀ y ∈ items, isU y = false) (qw lo hi' : Int) (s : St) :
-    step env .ofFoundIn { s with stack := ([hi'] ++ [lo]) ++ ((items.reverse ++ ([UNDEF] ++ [qw])) ++ s.stack) } =
-      some { s with pc := s.pc + 1,
-                    stack := (if isU lo || isU hi' then UNDEF else
-                      ofResult qw (items.countP fun sv => (matchesOfStr env sv).any (inRange lo hi')) items.length) :: s.stack } := by
-  have hst : ([hi'] ++ [lo]) ++ ((items.reverse ++ ([UNDEF] ++ [qw])) ++ s.stack)
-      = hi' :: lo :: (items.reverse ++ UNDEF :: (qw :: s.stack)) := by simp
-  have hp := popToMarker_spec items.reverse [] (qw :: s.stack) (fun y hy => hi y (by simpa using hy))
-  simp only [List.reverse_reverse, List.append_nil] at hp
-  simp only [step, hst, hp]
-  split <;> rfl
-
-theorem step_ofFoundAt (env : Env) (items : List Int) (hi : ∀ y ∈ items, isU y = false) (qw x : Int) (s : St) :
-    step env .ofFoundAt { s with stack := [x] ++ ((items.reverse ++ ([UNDEF] ++ [qw])) ++ s.stack) } =
-      some { s with pc := s.pc + 1,
-                    stack := (if isU x then UNDEF else
-                      ofResult qw (items.countP fun sv => (matchesOfStr env sv).any fun m => m.1 == x) items.length) :: s.stack } := by
-  have hst : [x] ++ ((items.reverse ++ ([UNDEF] ++ [qw])) ++ s.stack)
-      = x :: (items.reverse ++ UNDEF :: (qw :: s.stack)) := by simp
-  have hp := popToMarker_spec items.reverse [] (qw :: s.stack) (fun y hy => hi y (by simpa using hy))
+theorem step_ofFoundIn (env : Env) (items : List Int) (hi : ∀ y ∈ items, isU y = false) (qw lo hi' : Int)
+    (pc : Nat) (st mem : List Int) (its : List Iter) :
+    step env .ofFoundIn ⟨pc, ([hi'] ++ [lo]) ++ ((items.reverse ++ ([UNDEF] ++ [qw])) ++ st), mem, its⟩ =
+      some ⟨pc + 1, (if isU lo || isU hi' then UNDEF else
+        ofResult qw (items.countP fun sv => (matchesOfStr env sv).any (inRange lo hi')) items.length) :: st, mem, its⟩ := by
+  have hst : ([hi'] ++ [lo]) ++ ((items.reverse ++ ([UNDEF] ++ [qw])) ++ st)
+      = hi' :: lo :: (items.reverse ++ UNDEF :: (qw :: st)) := by simp
+  have hp := popToMarker_spec items.reverse [] (qw :: st) (fun y hy => hi y (by simpa using hy))
   simp only [List.reverse_reverse, List.append_nil] at hp
   simp only [step, hst, hp]
   split <;> rfl
 
-theorem runs_strset {env : Env} {code : List Instr} {P : List Int → Prop} (set : List Nat) :
-    Runs env code (set.map fun n => Instr.push (encStr n)) P (set.map encStr).reverse := by
-  have := runs_pushes (env := env) (code := code) (P := P) (set.map fun n => (Instr.push (encStr n), encStr n))
-    (by intro p hp s; simp only [List.mem_map] at hp; obtain ⟨n, _, rfl⟩ := hp; rfl)
+theorem step_ofFoundAt (env : Env) (items : List Int) (hi : ∀ y ∈ items, isU y = false) (qw x : Int)
+    (pc : Nat) (st mem : List Int) (its : List Iter) :
+    step env .ofFoundAt ⟨pc, [x] ++ ((items.reverse ++ ([UNDEF] ++ [qw])) ++ st), mem, its⟩ =
+      some ⟨pc + 1, (if isU x then UNDEF else
+        ofResult qw (items.countP fun sv => (matchesOfStr env sv).any fun m => m.1 == x) items.length) :: st, mem, its⟩ := by
+  have hst : [x] ++ ((items.reverse ++ ([UNDEF] ++ [qw])) ++ st) = x :: (items.reverse ++ UNDEF :: (qw :: st)) := by simp
+  have hp := popToMarker_spec items.reverse [] (qw :: st) (fun y hy => hi y (by simpa using hy))
+  simp only [List.reverse_reverse, List.append_nil] at hp
+  simp only [step, hst, hp]
+  split <;> rfl
+
+theorem runs_strset {env : Env} {code : List Instr} {c : Ctx} {l : LEnv} (set : List Nat) :
+    Runs env code (set.map fun n => Instr.push (encStr n)) c l (set.map encStr).reverse := by
+  have := runs_pushes (env := env) (code := code) (c := c) (l := l) (set.map fun n => (Instr.push (encStr n), encStr n))
+    (by intro p hp pc st mem its; simp only [List.mem_map] at hp; obtain ⟨n, _, rfl⟩ := hp; rfl)
   simpa [List.map_map, Function.comp_def] using this
 
-theorem runs_ruleset {env : Env} {code : List Instr} {P : List Int → Prop} (set : List Nat) :
-    Runs env code (set.map fun k => Instr.pushRule k) P (set.map fun k => b2i (env.rules.getD k false)).reverse := by
-  have := runs_pushes (env := env) (code := code) (P := P)
+theorem runs_ruleset {env : Env} {code : List Instr} {c : Ctx} {l : LEnv} (set : List Nat) :
+    Runs env code (set.map fun k => Instr.pushRule k) c l (set.map fun k => b2i (env.rules.getD k false)).reverse := by
+  have := runs_pushes (env := env) (code := code) (c := c) (l := l)
     (set.map fun k => (Instr.pushRule k, b2i (env.rules.getD k false)))
-    (by intro p hp s; simp only [List.mem_map] at hp; obtain ⟨n, _, rfl⟩ := hp; rfl)
+    (by intro p hp pc st mem its; simp only [List.mem_map] at hp; obtain ⟨n, _, rfl⟩ := hp; rfl)
   simpa [List.map_map, Function.comp_def] using this
 
 theorem count_strset (env : Env) (set : List Nat) (p : List (Int × Int) → Bool) :
@@ -339,46 +322,45 @@ theorem count_ruleset (env : Env) (set : List Nat) :
 
 theorem exec_loopfree (env : Env) (henv : EnvOk env) (code : List Instr) :
     ∀ (e : Expr) (c : Ctx) (l : LEnv), loopFree e = true → WF env c l e →
-      Runs env code (compile c e) (MemInv c l) [toVm (eval env l e)]
+      Runs env code (compile c e) c l [toVm (eval env l e)]
   | .int v, c, l, _, hw => by
     have hv : isUndef v = false := isUndef_of_ne (by simpa [WF] using hw)
     simp only [compile, hv, eval, toVm]
-    exact Runs.push1 _ _ (fun s _ => rfl)
+    exact Runs.push1 _ _ (fun _ _ _ _ _ => rfl)
   | .str s, c, l, _, _ => by
     simp only [compile, eval, toVm]
-    exact Runs.push1 _ _ (fun s _ => rfl)
+    exact Runs.push1 _ _ (fun _ _ _ _ _ => rfl)
   | .filesize, c, l, _, _ => by
     simp only [compile, eval, toVm]
-    exact Runs.push1 _ _ (fun s _ => rfl)
+    exact Runs.push1 _ _ (fun _ _ _ _ _ => rfl)
   | .ext n, c, l, _, _ => by
     simp only [compile, eval]
-    exact Runs.push1 _ _ (fun s _ => rfl)
+    exact Runs.push1 _ _ (fun _ _ _ _ _ => rfl)
   | .var k, c, l, _, hw => by
     simp only [compile, eval]
     simp only [WF] at hw
     apply Runs.push1
-    intro s hP
+    intro pc st mem its hP
     simp [step, hP.2.1 k hw.1]
   | .undefOf t, c, l, _, _ => by
     simp only [compile, eval, toVm]
-    exact Runs.push1 _ _ (fun s _ => rfl)
+    exact Runs.push1 _ _ (fun _ _ _ _ _ => rfl)
   | .tt, c, l, _, _ => by
     simp only [compile, eval, toVm]
-    exact Runs.push1 _ _ (fun s _ => rfl)
+    exact Runs.push1 _ _ (fun _ _ _ _ _ => rfl)
   | .ff, c, l, _, _ => by
     simp only [compile, eval, toVm]
-    exact Runs.push1 _ _ (fun s _ => rfl)
+    exact Runs.push1 _ _ (fun _ _ _ _ _ => rfl)
   | .ruleRef k, c, l, _, _ => by
     simp only [compile, eval, toVm]
-    exact Runs.push1 _ _ (fun s _ => rfl)
+    exact Runs.push1 _ _ (fun _ _ _ _ _ => rfl)
   | .neg e, c, l, hl, hw => by
     simp only [WF] at hw
     have ih := exec_loopfree env henv code e c l (by simpa [loopFree] using hl) hw.1
     have ht := wf_typed env c l e hw.1
     rw [hw.2.1] at ht
     simp only [compile, hw.2.1, eval]
-    refine Runs.val ?_ (Runs.op (.un .OP_INT_MINUS) _ _ ih (fun s => rfl))
-    rw [vm_neg _ _ ht]
+    exact Runs.val1 (vm_neg _ _ ht) (Runs.op (.un .OP_INT_MINUS) _ _ ih (fun _ _ _ _ => rfl))
   | .arith op a b, c, l, hl, hw => by
     simp only [WF] at hw
     simp only [loopFree, Bool.and_eq_true] at hl
@@ -392,24 +374,21 @@ theorem exec_loopfree (env : Env) (henv : EnvOk env) (code : List Instr) :
       cases op <;> simp [compile, hw.2.2.1, hw.2.2.2.1, conv, numTy]
     rw [hcode]
     simp only [eval]
-    refine Runs.val ?_ (Runs.op (.bin (arithOp .int op)) _ _ (Runs.seq iha ihb) (fun s => rfl))
-    rw [vm_arith _ _ _ _ hta htb]
+    exact Runs.val1 (vm_arith _ _ _ _ hta htb) (Runs.op (.bin (arithOp .int op)) _ _ (Runs.seq iha ihb) (fun _ _ _ _ => rfl))
   | .bnot e, c, l, hl, hw => by
     simp only [WF] at hw
     have ih := exec_loopfree env henv code e c l (by simpa [loopFree] using hl) hw.1
     have ht := wf_typed env c l e hw.1
     rw [hw.2.1] at ht
     simp only [compile, eval]
-    refine Runs.val ?_ (Runs.op (.un .OP_BITWISE_NOT) _ _ ih (fun s => rfl))
-    rw [vm_bnot _ _ ht]
+    exact Runs.val1 (vm_bnot _ _ ht) (Runs.op (.un .OP_BITWISE_NOT) _ _ ih (fun _ _ _ _ => rfl))
   | .read k off, c, l, hl, hw => by
     simp only [WF] at hw
     have ih := exec_loopfree env henv code off c l (by simpa [loopFree] using hl) hw.1
     have ht := wf_typed env c l off hw.1
     rw [hw.2.1] at ht
     simp only [compile, eval]
-    refine Runs.val ?_ (Runs.op (.un (readOp k)) _ _ ih (fun s => rfl))
-    rw [vm_read env.blocks henv k _ ht hw.2.2.2]
+    exact Runs.val1 (vm_read env.blocks henv k _ ht hw.2.2.2) (Runs.op (.un (readOp k)) _ _ ih (fun _ _ _ _ => rfl))
   | .count s, c, l, _, hw => by
     simp only [WF] at hw
     have hp := runs_pushStr env code c l s hw
@@ -500,14 +479,14 @@ theorem exec_loopfree (env : Env) (henv : EnvOk env) (code : List Instr) :
         simp [compile, h1, h2, conv, numTy]
       rw [hcode]
       simp only [eval]
-      exact Runs.val1 (vm_cmp_int _ _ _ _ hta htb) (Runs.op (.bin (cmpOp .int op)) _ _ (Runs.seq iha ihb) (fun s => rfl))
+      exact Runs.val1 (vm_cmp_int _ _ _ _ hta htb) (Runs.op (.bin (cmpOp .int op)) _ _ (Runs.seq iha ihb) (fun _ _ _ _ => rfl))
     · rw [h1] at hta
       rw [h2] at htb
       have hcode : compile c (.cmp op a b) = (compile c a ++ compile c b) ++ [.bin (cmpOp .str op)] := by
         simp [compile, h1, h2, conv, numTy]
       rw [hcode]
       simp only [eval]
-      exact Runs.val1 (vm_cmp_str _ _ _ _ hta htb) (Runs.op (.bin (cmpOp .str op)) _ _ (Runs.seq iha ihb) (fun s => rfl))
+      exact Runs.val1 (vm_cmp_str _ _ _ _ hta htb) (Runs.op (.bin (cmpOp .str op)) _ _ (Runs.seq iha ihb) (fun _ _ _ _ => rfl))
   | .strop op a b, c, l, hl, hw => by
     simp only [WF] at hw
     simp only [loopFree, Bool.and_eq_true] at hl
@@ -521,7 +500,7 @@ theorem exec_loopfree (env : Env) (henv : EnvOk env) (code : List Instr) :
     have hcode : compile c (.strop op a b) = (compile c a ++ compile c b) ++ [.bin (strOpc op)] := by simp [compile]
     rw [hcode]
     simp only [eval]
-    exact Runs.val1 (vm_strop _ _ _ _ hta htb) (Runs.op (.bin (strOpc op)) _ _ (Runs.seq iha ihb) (fun s => rfl))
+    exact Runs.val1 (vm_strop _ _ _ _ hta htb) (Runs.op (.bin (strOpc op)) _ _ (Runs.seq iha ihb) (fun _ _ _ _ => rfl))
   | .matches a re nc, c, l, hl, hw => by
     simp only [WF] at hw
     obtain ⟨hwa, h1⟩ := hw
@@ -531,7 +510,7 @@ theorem exec_loopfree (env : Env) (henv : EnvOk env) (code : List Instr) :
     have hcode : compile c (.matches a re nc) = (compile c a ++ [.push (encRe re nc)]) ++ [.matches] := by simp [compile]
     rw [hcode]
     simp only [eval]
-    have hp : Runs env code [Instr.push (encRe re nc)] (MemInv c l) [encRe re nc] := Runs.push1 _ _ (fun s _ => rfl)
+    have hp : Runs env code [Instr.push (encRe re nc)] c l [encRe re nc] := Runs.push1 _ _ (fun _ _ _ _ _ => rfl)
     exact Runs.val1 (w_matches re nc _ hta) (Runs.op .matches _ _ (Runs.seq iha hp) (step_matches env _ _))
   | .not e, c, l, hl, hw => by
     simp only [WF] at hw
@@ -540,7 +519,7 @@ theorem exec_loopfree (env : Env) (henv : EnvOk env) (code : List Instr) :
     have hcode : compile c (.not e) = (compile c e ++ strToBool (tyOf c e)) ++ [.un .OP_NOT] := by simp [compile]
     rw [hcode]
     simp only [eval]
-    exact Runs.val1 (vm_not env.blocks _ _ ht) (Runs.op (.un .OP_NOT) _ _ (runs_boolpos _ _ _ ih) (fun s => rfl))
+    exact Runs.val1 (vm_not env.blocks _ _ ht) (Runs.op (.un .OP_NOT) _ _ (runs_boolpos _ _ _ ih) (fun _ _ _ _ => rfl))
   | .defined e, c, l, hl, hw => by
     simp only [WF] at hw
     have ih := exec_loopfree env henv code e c l (by simpa [loopFree] using hl) hw
@@ -548,7 +527,7 @@ theorem exec_loopfree (env : Env) (henv : EnvOk env) (code : List Instr) :
     have hcode : compile c (.defined e) = (compile c e ++ strToBool (tyOf c e)) ++ [.un .OP_DEFINED] := by simp [compile]
     rw [hcode]
     simp only [eval]
-    exact Runs.val1 (vm_defined env.blocks _ _ ht) (Runs.op (.un .OP_DEFINED) _ _ (runs_boolpos _ _ _ ih) (fun s => rfl))
+    exact Runs.val1 (vm_defined env.blocks _ _ ht) (Runs.op (.un .OP_DEFINED) _ _ (runs_boolpos _ _ _ ih) (fun _ _ _ _ => rfl))
   | .and a b, c, l, hl, hw => by
     simp only [WF] at hw
     simp only [loopFree, Bool.and_eq_true] at hl
@@ -573,10 +552,10 @@ theorem exec_loopfree (env : Env) (henv : EnvOk env) (code : List Instr) :
     exact runs_or (runs_boolpos _ _ _ iha) (runs_boolpos _ _ _ ihb) (boolWord_one env.blocks _ _ hta hbw)
   | .ofStr q qe set, c, l, hl, hw => by
     simp only [WF] at hw
-    have hq := runs_quant (env := env) (code := code) (P := MemInv c l) q (compile c qe) (toVm (eval env l qe))
+    have hq := runs_quant (env := env) (code := code) (c := c) (l := l) q (compile c qe) (toVm (eval env l qe))
       (fun h => exec_loopfree env henv code qe c l (by simpa [loopFree] using hl) (hw h).1)
-    have hm : Runs env code [Instr.pushU] (MemInv c l) [UNDEF] := Runs.push1 _ _ (fun s _ => rfl)
-    have hs := runs_strset (env := env) (code := code) (P := MemInv c l) set
+    have hm : Runs env code [Instr.pushU] c l [UNDEF] := Runs.push1 _ _ (fun _ _ _ _ _ => rfl)
+    have hs := runs_strset (env := env) (code := code) (c := c) (l := l) set
     have hcode : compile c (.ofStr q qe set) =
         ((quantCode (compile c qe) q ++ [Instr.pushU]) ++ set.map fun n => Instr.push (encStr n)) ++ [.of_ false] := by
       simp [compile]
@@ -591,10 +570,10 @@ theorem exec_loopfree (env : Env) (henv : EnvOk env) (code : List Instr) :
     exact w_of q _ _ _ (List.countP_le_length) (fun h => ⟨by have := wf_typed env c l qe (hw h).1; rwa [(hw h).2.1] at this, (hw h).2.2⟩)
   | .ofRules q qe set, c, l, hl, hw => by
     simp only [WF] at hw
-    have hq := runs_quant (env := env) (code := code) (P := MemInv c l) q (compile c qe) (toVm (eval env l qe))
+    have hq := runs_quant (env := env) (code := code) (c := c) (l := l) q (compile c qe) (toVm (eval env l qe))
       (fun h => exec_loopfree env henv code qe c l (by simpa [loopFree] using hl) (hw h).1)
-    have hm : Runs env code [Instr.pushU] (MemInv c l) [UNDEF] := Runs.push1 _ _ (fun s _ => rfl)
-    have hs := runs_ruleset (env := env) (code := code) (P := MemInv c l) set
+    have hm : Runs env code [Instr.pushU] c l [UNDEF] := Runs.push1 _ _ (fun _ _ _ _ _ => rfl)
+    have hs := runs_ruleset (env := env) (code := code) (c := c) (l := l) set
     have hcode : compile c (.ofRules q qe set) =
         ((quantCode (compile c qe) q ++ [Instr.pushU]) ++ set.map fun k => Instr.pushRule k) ++ [.of_ true] := by
       simp [compile]
@@ -611,10 +590,10 @@ theorem exec_loopfree (env : Env) (henv : EnvOk env) (code : List Instr) :
     simp only [WF] at hw
     simp only [loopFree, Bool.and_eq_true] at hl
     obtain ⟨hwq, hwlo, hwhi, htlo, hthi⟩ := hw
-    have hq := runs_quant (env := env) (code := code) (P := MemInv c l) q (compile c qe) (toVm (eval env l qe))
+    have hq := runs_quant (env := env) (code := code) (c := c) (l := l) q (compile c qe) (toVm (eval env l qe))
       (fun h => exec_loopfree env henv code qe c l hl.1.1 (hwq h).1)
-    have hm : Runs env code [Instr.pushU] (MemInv c l) [UNDEF] := Runs.push1 _ _ (fun s _ => rfl)
-    have hs := runs_strset (env := env) (code := code) (P := MemInv c l) set
+    have hm : Runs env code [Instr.pushU] c l [UNDEF] := Runs.push1 _ _ (fun _ _ _ _ _ => rfl)
+    have hs := runs_strset (env := env) (code := code) (c := c) (l := l) set
     have ihlo := exec_loopfree env henv code lo c l hl.1.2 hwlo
     have ihhi := exec_loopfree env henv code hi c l hl.2 hwhi
     have hlo := wf_typed env c l lo hwlo
@@ -641,10 +620,10 @@ theorem exec_loopfree (env : Env) (henv : EnvOk env) (code : List Instr) :
     simp only [WF] at hw
     simp only [loopFree, Bool.and_eq_true] at hl
     obtain ⟨hwq, hwp, htp⟩ := hw
-    have hq := runs_quant (env := env) (code := code) (P := MemInv c l) q (compile c qe) (toVm (eval env l qe))
+    have hq := runs_quant (env := env) (code := code) (c := c) (l := l) q (compile c qe) (toVm (eval env l qe))
       (fun h => exec_loopfree env henv code qe c l hl.1 (hwq h).1)
-    have hm : Runs env code [Instr.pushU] (MemInv c l) [UNDEF] := Runs.push1 _ _ (fun s _ => rfl)
-    have hs := runs_strset (env := env) (code := code) (P := MemInv c l) set
+    have hm : Runs env code [Instr.pushU] c l [UNDEF] := Runs.push1 _ _ (fun _ _ _ _ _ => rfl)
+    have hs := runs_strset (env := env) (code := code) (c := c) (l := l) set
     have ihp := exec_loopfree env henv code pos c l hl.2 hwp
     have hp := wf_typed env c l pos hwp
     rw [htp] at hp
